@@ -233,7 +233,8 @@ class TraitList(list):
         added : list
             The items being added to the list.
         """
-        for notifier in self.notifiers:
+        # Iterate over a copy: a notifier may add or remove notifiers.
+        for notifier in list(self.notifiers):
             notifier(self, index, removed, added)
 
     # -- list interface -------------------------------------------------------
